@@ -255,6 +255,26 @@ def pool_iter_scenarios():
     return out
 
 
+def shard_mismatch_scenarios():
+    """the concurrent no-index (`CRelNoIndex`: one shard per thread of the pool it was created in) merged between indices created in pools of DIFFERENT sizes, inside the
+    law's hypothesis (the source has no more shards than the destination): `total` made in a pool of 4 / 3 with an entry in EVERY shard, `delta` and `new` made in a pool of
+    2 / 1 and holding MORE entries than `total` - every entry of `total` and of `delta` must be in `total` afterwards, `delta` = old `new`, `new` empty"""
+    out = []
+    for k, (st, sd) in enumerate([(4, 2), (4, 1), (3, 2), (4, 3), (2, 2), (3, 1)]):
+        p = f"sm{k}"
+        N, D, T = p + "n", p + "d", p + "t"
+        ops = [f"idx mk {N} cnoidx {sd}", f"idx mk {D} cnoidx {sd}", f"idx mk {T} cnoidx {st}"]
+        ops += [f"idx cins {T} 0 {100 + th} {st} {th}" for th in range(st)]
+        ops += [f"idx cins {D} 0 {v} {sd} {v % sd}" for v in range(10)]
+        ops += [f"idx cins {N} 0 {50 + v} {sd} {v % sd}" for v in range(3)]
+        look = [x for nm in (T, D, N) for x in (f"idx freeze {nm}", f"idx all {nm}", f"idx unfreeze {nm}")]
+        ops += [f"idx merge {N} {D} {T}"] + look
+        # a second round: the former `new` is the delta now
+        ops += [f"idx cins {N} 0 {70 + v} {sd} {v % sd}" for v in range(6)] + [f"idx merge {N} {D} {T}"] + look
+        out.append(("cnoidx", ops))
+    return out
+
+
 def sparse_scenarios():
     """an index holding ONE key (every key of a range in turn, so every shard of the real DashMap is hit), alone and as one side of the
     combined view: `is_empty` must answer false (generated code skips the whole rule on true)"""
@@ -293,6 +313,7 @@ def check(tier, replay=None):
         scen += forced_scenarios()
         scen += sparse_scenarios()
         scen += pool_iter_scenarios()
+        scen += shard_mismatch_scenarios()
         n = 400 if (tier == "quick" and proof.ok) else 4000
         for i in range(n):
             scen.append(gen_scenario(rng, i, tier))
